@@ -45,7 +45,7 @@ fn main() {
     let idx: Vec<usize> = (0..cases.len()).collect();
     let verdicts = par_map(&idx, |&i| {
         let c = &cases[i];
-        let pl = (i + 5) % PLACEMENTS.len();
+        let pl = placement_for(&c.arms, (i + 5) % PLACEMENTS.len());
         let prog = match_program_at(&u, &c.ty, &some_value(&u, &c.ty), &c.arms, pl);
         let v = checker_verdict(&prog);
         let base = if i % 3 == 0 && pl != 0 {
@@ -56,7 +56,7 @@ fn main() {
         (v, base)
     });
     for (i, (c, (v, base))) in cases.iter().zip(verdicts).enumerate() {
-        let pl = (i + 5) % PLACEMENTS.len();
+        let pl = placement_for(&c.arms, (i + 5) % PLACEMENTS.len());
         ctx.count(&format!("placement:{}", PLACEMENTS[pl]));
         if let Some(b) = &base {
             ctx.count("placement-pairs-compared");
